@@ -154,18 +154,19 @@ def boundary_cases(latmax):
     return cases
 
 
-def confirm(rep, results, want, latmax, key_prefix=""):
+def confirm(rep, results, want, latmax, key_prefix="", force=None):
     """Replay candidates (and seeded random admissible inputs) against the real kernels; report what reproduces."""
     cands = [c for x in results for c in x["cands"]]
-    if not cands and not any(x["inconclusive"] for x in results):
-        return      # every obligation decided and held
+    force = (getattr(rep, "tier", "quick") == "thorough") if force is None else force
+    if not cands and not any(x["inconclusive"] for x in results) and not force:
+        return      # every obligation decided and held (the thorough tier cross-checks natively anyway)
     cases = []
     for c in cands[:40]:
         k = case_from_inputs(c["inputs"])
         if k:
             cases.append(k)
     seed = int(os.environ.get("VERIF_SEED", "0") or 0)
-    cases += random_cases(400, latmax, seed)
+    cases += random_cases(6000 if force else 400, latmax, seed)
     cases += corner_cases(latmax)
     cases += boundary_cases(latmax)
     cases += seam_cases(latmax)
